@@ -42,6 +42,8 @@ fn rrl_zone() -> (RefCatalog, QCatalog) {
         RRec { owner: RName::simple("m.ail.rrl.test."), rtype: T_A, class: C_IN, ttl: 300, rdata: vec![192, 0, 2, 7] },
         RRec { owner: RName::simple("*.wild.rrl.test."), rtype: T_A, class: C_IN, ttl: 300, rdata: vec![192, 0, 2, 4] },
         RRec { owner: RName::simple("*.other.rrl.test."), rtype: T_A, class: C_IN, ttl: 300, rdata: vec![192, 0, 2, 5] },
+        // a wildcard that owns a CNAME: answers synthesized from it form one stream as well
+        RRec { owner: RName::simple("*.cn.rrl.test."), rtype: T_CNAME, class: C_IN, ttl: 300, rdata: RName::simple("www.rrl.test.").wire() },
     ];
     recs.push(RRec { owner: RName::simple("txt.rrl.test."), rtype: T_TXT, class: C_IN, ttl: 300, rdata: vec![1, b'x'] });
     // a wildcard whose TXT RRset does not fit in 512 octets (answers are truncated over plain UDP)
@@ -393,7 +395,7 @@ fn gen_source(rng: &mut Rng, base: Option<&IpAddr>, v4: u8, v6: u8) -> IpAddr {
     }
 }
 
-const C27_NAMES: [&str; 17] = ["ma.il.rrl.test.", "m.ail.rrl.test.", "MA.IL.rrl.test.", "mail.rrl.test.", "www.rrl.test.", "WWW.RRL.test.", "mail.rrl.test.", "a.wild.rrl.test.", "B.wild.rrl.test.", "c.other.rrl.test.", "nx1.rrl.test.", "nx2.rrl.test.", "www.elsewhere.", "txt.rrl.test.", "a.big.rrl.test.", "b.big.rrl.test.", "C.Big.rrl.test."];
+const C27_NAMES: [&str; 20] = ["a.cn.rrl.test.", "b.cn.rrl.test.", "C.cn.rrl.test.", "ma.il.rrl.test.", "m.ail.rrl.test.", "MA.IL.rrl.test.", "mail.rrl.test.", "www.rrl.test.", "WWW.RRL.test.", "mail.rrl.test.", "a.wild.rrl.test.", "B.wild.rrl.test.", "c.other.rrl.test.", "nx1.rrl.test.", "nx2.rrl.test.", "www.elsewhere.", "txt.rrl.test.", "a.big.rrl.test.", "b.big.rrl.test.", "C.Big.rrl.test."];
 
 fn gen_req(rng: &mut Rng, base: Option<&Req>, v4: u8, v6: u8) -> Req {
     let name = if let (Some(b), true) = (base, rng.chance(1, 3)) { b.name.clone() } else { RName::simple(C27_NAMES[rng.below(C27_NAMES.len())]) };
